@@ -22,6 +22,28 @@ _real_makedirs = os.makedirs
 _real_exists = os.path.exists
 _real_isfile = os.path.isfile
 _real_isdir = os.path.isdir
+_real_os_open = os.open
+_real_os_write = os.write
+_real_os_close = os.close
+_real_link = os.link
+_real_symlink = os.symlink
+_real_mkdir = os.mkdir
+_real_rmdir = os.rmdir
+_real_truncate = os.truncate
+_real_getpid = os.getpid
+
+
+def _sim_getpid():
+    """Process id as seen by the package under test: the number of the
+    simulated process (the real one differs from run to run and would end up
+    in lock files and temporary names)."""
+    proc = current()
+    if proc is not None:
+        import sys as _sys
+        caller = _sys._getframe(1).f_globals.get('__name__', '')
+        if caller == 'panqec' or caller.startswith('panqec.'):
+            return 4000 + proc.pid
+    return _real_getpid()
 
 TEAR_CLASSES = ('0', '1', 'half', 'len-1', 'len')
 
@@ -273,6 +295,88 @@ class Sandbox:
             return r
         return probe
 
+    # -- low-level descriptors (lock files are made this way) ---------------
+    def _inside_any(self, path):
+        try:
+            return isinstance(path, (str, os.PathLike)) \
+                and self.inside(os.fspath(path))
+        except TypeError:
+            return False
+
+    def _os_open(self, path, flags, mode=0o777, *, dir_fd=None):
+        proc = current()
+        if proc is None or dir_fd is not None or not self._inside_any(path):
+            if dir_fd is not None:
+                return _real_os_open(path, flags, mode, dir_fd=dir_fd)
+            return _real_os_open(path, flags, mode)
+        p, f = fs_event('osopen-pre', path, flags & (os.O_CREAT | os.O_EXCL
+                                                     | os.O_TRUNC))
+        if f is not None and f['kind'] == 'kill':
+            kill(proc)
+        kernel.yield_point()
+        if proc.dead:
+            raise SimKill()
+        fd = _real_os_open(path, flags, mode)
+        st = os.fstat(fd)
+        self._fds[fd] = (proc, os.fspath(path), (st.st_dev, st.st_ino))
+        p, f = fs_event('osopen', path)
+        self.on_durable(proc, os.fspath(path))
+        if f is not None and f['kind'] == 'kill':
+            kill(proc)
+        return fd
+
+    def _os_write(self, fd, data):
+        ent = self._fds.get(fd)
+        proc = current()
+        if ent is not None:
+            # (the descriptor number may have been closed behind our back,
+            # e.g. through os.fdopen, and reused for another file)
+            try:
+                st = os.fstat(fd)
+                if (st.st_dev, st.st_ino) != ent[2]:
+                    ent = None
+            except OSError:
+                ent = None
+            if ent is None:
+                self._fds.pop(fd, None)
+        if ent is None or proc is None:
+            return _real_os_write(fd, data)
+        p, f = fs_event('oswrite-pre', ent[1], len(data))
+        if f is not None and f['kind'] == 'kill':
+            kill(proc)
+        n = _real_os_write(fd, data)
+        p, f = fs_event('oswrite', ent[1], n)
+        self.on_durable(proc, ent[1])
+        if f is not None and f['kind'] == 'kill':
+            kill(proc)
+        return n
+
+    def _os_close(self, fd):
+        self._fds.pop(fd, None)
+        return _real_os_close(fd)
+
+    def _one_path(self, real, kind, which=0):
+        """mkdir / rmdir / truncate (path first), link / symlink (the new
+        name second): an event before and after, a kill may land on either."""
+        def op(*a, **kw):
+            proc = current()
+            path = a[which] if len(a) > which else None
+            if proc is None or not self._inside_any(path):
+                return real(*a, **kw)
+            p, f = fs_event(kind + '-pre', path)
+            if f is not None and f['kind'] == 'kill':
+                kill(proc)
+            kernel.yield_point()
+            if proc.dead:
+                raise SimKill()
+            r = real(*a, **kw)
+            p, f = fs_event(kind, path)
+            self.on_durable(proc, os.fspath(path))
+            if f is not None and f['kind'] == 'kill':
+                kill(proc)
+            return r
+        return op
+
     def _makedirs(self, name, mode=0o777, exist_ok=False):
         proc = current()
         if proc is None or not self.inside(name):
@@ -299,6 +403,22 @@ class Sandbox:
         os.path.exists = self._probe(_real_exists)
         os.path.isfile = self._probe(_real_isfile)
         os.path.isdir = self._probe(_real_isdir)
+        self._fds = {}
+        os.getpid = _sim_getpid
+        os.open = self._os_open
+        os.write = self._os_write
+        os.close = self._os_close
+        self._lowlevel = {
+            'link': (_real_link, self._one_path(_real_link, 'link', 1)),
+            'symlink': (_real_symlink,
+                        self._one_path(_real_symlink, 'symlink', 1)),
+            'mkdir': (_real_mkdir, self._one_path(_real_mkdir, 'mkdir')),
+            'rmdir': (_real_rmdir, self._one_path(_real_rmdir, 'rmdir')),
+            'truncate': (_real_truncate,
+                         self._one_path(_real_truncate, 'truncate')),
+        }
+        for name_, (real_, repl_) in self._lowlevel.items():
+            setattr(os, name_, repl_)
         # aliases the package under test may have bound at import time
         # (`_replace = os.replace`, `from os import remove`, ...)
         from . import seams as _seams
@@ -307,7 +427,12 @@ class Sandbox:
                            (_real_replace, self._replace),
                            (_real_rename, self._rename),
                            (_real_remove, self._remove),
-                           (_real_makedirs, self._makedirs)):
+                           (_real_makedirs, self._makedirs),
+                           (_real_os_open, self._os_open),
+                           (_real_os_write, self._os_write),
+                           (_real_os_close, self._os_close),
+                           (_real_getpid, _sim_getpid)) + tuple(
+                               self._lowlevel.values()):
             self._alias_undo.append(
                 (_seams.patch_everywhere(real, repl), real))
         self.installed = True
@@ -325,6 +450,12 @@ class Sandbox:
         os.path.exists = _real_exists
         os.path.isfile = _real_isfile
         os.path.isdir = _real_isdir
+        os.getpid = _real_getpid
+        os.open = _real_os_open
+        os.write = _real_os_write
+        os.close = _real_os_close
+        for name_, (real_, repl_) in getattr(self, '_lowlevel', {}).items():
+            setattr(os, name_, real_)
         from . import seams as _seams
         for done, real in getattr(self, '_alias_undo', []):
             _seams.unpatch(done, real)
